@@ -30,7 +30,7 @@ Proof. split; vm_compute; tauto. Qed.
 (* a registry of 2 cells growing by 1 up to 5: growth, a refused operation, raisePush at the limit *)
 Definition hR : list rop :=
   [RPush (VInt 1); RPush (VInt 2); RPush (VInt 3); RCopyRange 1 2 (-1) 3; RSetTop 6; RSetTop 5;
-   RPush (VInt 9); RRaisePush; RPush (VInt 4); RPop; RInsert (VInt 7) 1; RMove 0 2; RFillNil 2 2; RGet 1].
+   RPush (VInt 9); RPush (VInt 4); RPop; RInsert (VInt 7) 1; RMove 0 2; RFillNil 2 2; RGet 1].
 Example reg_rel : Rr (newRegistry 2 1 5) [] 5.
 Proof. apply (Rr_new 2 1 5); lia. Qed.
 Example reg_dom : ldomR [] 5 hR = true.
@@ -39,6 +39,14 @@ Example reg_run : rrun (newRegistry 2 1 5) hR = lrunR [] 5 hR.
 Proof. apply registry_refines_list_lemma; [exact reg_rel|exact reg_dom]. Qed.
 Example reg_run_has_overflow : exists b, In b (lrunR [] 5 hR) /\ ost b = SOverflow.
 Proof. eexists. split; [vm_compute; right; right; right; right; left; reflexivity|reflexivity]. Qed.
+
+(* an error raised with the registry exactly full: the message fits, the limit is still 5, and
+   after the catch (SetTop 2) the registry is represented under limit 5 again *)
+Definition rFull : registry := mkReg [Some (VInt 1); Some (VInt 2); Some (VInt 3); Some (VInt 4); Some (VInt 5)] 5 5 1 5.
+Example rFull_rel : Rr rFull [Some (VInt 1); Some (VInt 2); Some (VInt 3); Some (VInt 4); Some (VInt 5)] 5.
+Proof. constructor; vm_compute; try reflexivity; try discriminate. left. discriminate. Qed.
+Example raise_full : exists r', raisePush rFull (Some VMsg) = Ok r' /\ cap r' = 6 /\ limit r' = 5 /\ top r' = 6.
+Proof. eexists. split; [reflexivity|]. vm_compute. auto. Qed.
 
 (* below the limit / above the limit on the same represented registry *)
 Example grow_ok : exists r', rstep (newRegistry 2 1 5) (RSetTop 5) = Ok (r', None) /\ Rr r' (resizeN [] 5) 5.
